@@ -69,8 +69,8 @@ def wasmToks : WVec → List Tok → List String
   | w, .cap :: r => s!"v{wasmCapacity w}" :: wasmToks w r
   | w, .op o :: r =>
     match wasmVecStep w o with
-    | (_, .fail m) => [showRes "T" (.fail m)]
-    | (w', x) => showRes "T" x :: wasmToks w' r
+    | (_, .fail m) => [showRes (if m == "null" then "T" else "P") (.fail m)]
+    | (w', x) => showRes "P" x :: wasmToks w' r
 
 def parseElems (s : String) : Option (List Int) :=
   if s == "-" then some [] else (s.splitOn ",").mapM String.toInt?
@@ -92,7 +92,7 @@ def step (_ : Unit) (line : String) : Unit × String :=
     | some raw =>
       if lexAccepts raw then
         let c := content raw
-        let t := match tsCook c with
+        let t := match tsDecode c with
           | some u => showUnits u
           | none => "syn"
         s!"{t} {showUnits (wasmDecode c)}"
